@@ -4,138 +4,126 @@ from collections import Counter
 import vlib, cellcommon
 from vlib import Infra, log
 
-RULE = ("S->C: TLC (BFS) explores the cursor state machine of MerkleProof (Ref/Up/Prune/CreateProof) on 11 trees of <= 6 rows "
-        "(shared sub-trees, equal children as one row and as two equal rows) and enumerates 8-bit dictionaries of <= 4|5 keys from "
-        "the adversarial pool (both 'distinct values' and 'one value', 3 label-form assignments) with every present key and absent "
-        "keys; each vector is executed by boc.MerkleProver/Cursor/CreateProof resp. tlb.ProveKeyInHashmap on three builds of the "
-        "tree (distinct pointers / shared pointers / parsed from a bag). C->S: random dictionaries (widths 8..256, up to 60|500 "
-        "entries, random / twin / dense / one-value shapes, library-encoded and table-built, in memory and via a bag) and random "
-        "cursor walks on random DAGs. Every recorded proof is parsed with Boc!Parse, hashed with Cells (Prim!Sha256) and judged by "
-        "MerkleProof!ProofOK / WalkReason in TLC (MerkleProof_Trace): Merkle-proof root, stored hash/depth = original, level-0 hash "
-        "of the pruned tree = original hash, every pruned-branch cell stores hash/depth of the node at the same path, the bag is "
-        "exactly Proof(T,R,PS') of the prune set it exhibits, value of the key readable from the proof and equal to the original; "
-        "absent key => error. Non-trivial = a proof judged (present key or walk); distinct = distinct proof bags + distinct refusals.")
+RULE = ("A trace segment is the life of ONE boc.MerkleProver (Reset = NewMerkleProver; then every request it serves); the state of "
+        "MerkleProof_Trace is the prover (T, R) and its cursor sessions, each Cursor()/ProveKeyInHashmap starting with an EMPTY "
+        "prune set. S->C: TLC (BFS) explores sequences of up to 3 cursor sessions (Cursor, Ref/Up/Prune, CreateProof, Cursor ...) "
+        "on 11 trees of <= 6 rows (shared sub-trees, equal children as one row and as two equal rows) and enumerates 8-bit "
+        "dictionaries of <= 4|5 keys from the adversarial pool (distinct values / one value / value referencing a copy of the "
+        "sibling leaf, 3 label-form assignments) with every present key, absent keys and the first key asked again; each vector "
+        "is executed on one prover per build of the tree (distinct pointers / shared pointers / parsed from a bag). C->S: random "
+        "dictionaries (widths 8..256, up to 60|500 entries, five shapes, library-encoded and table-built, in memory and via a "
+        "bag; sampled keys, repeats) and random cursor scripts (2-4 sessions per prover, some interleaved, one session without "
+        "prunes after a pruning one) on random DAGs. Every recorded proof is parsed with Boc!Parse, hashed with Cells "
+        "(Prim!Sha256) and judged in TLC: Merkle-proof root, stored hash/depth = original, level-0 hash of the pruned tree = "
+        "original hash, every pruned-branch cell stores hash/depth of the node at the same path, the bag is exactly "
+        "Proof(T,R,PS') of the prune set it exhibits with PS' accounted for by THIS session's prunes, value of the key readable "
+        "from the proof and equal to the original; absent key => error. Non-trivial = a proof judged; distinct = distinct "
+        "proof bags + distinct refusals.")
 
 TRACE = ("MerkleProof_Trace", "trace/MerkleProof_Trace.cfg")
 
 
-def vector_of(e, qi=None):
-    """the input of a recorded event as a replayable vector (one mode; one key for dictionaries)"""
-    mode = e.get("mode", "tree")
+def vector_of(seg, upto):
+    """the requests of a recorded segment up to and including event index `upto`, as a replayable vector (one build mode)"""
+    r = seg[0]
+    mode = r.get("mode", "tree")
     if mode == "lib":
         mode = "tree"          # same cells, every cell its own pointer, as the library's encoder builds them
-    cs = [{"b": c["b"], "x": c["x"], "r": c["r"]} for c in e["cells"]]
-    if e["k"] == "Dict":
-        keys = [q["key"] for q in e["q"]] if qi is None else [e["q"][qi]["key"]]
-        return {"t": "dict", "src": e.get("src", ""), "n": e["n"], "cells": cs, "roots": e["roots"], "keys": keys, "modes": [mode]}
-    return {"t": "walk", "src": e.get("src", ""), "cells": cs, "roots": e["roots"], "ops": e["ops"], "modes": [mode]}
+    cs = [{"b": c["b"], "x": c["x"], "r": c["r"]} for c in r["cells"]]
+    evs = seg[1:upto + 1]
+    if r.get("kind") == "dict":
+        return {"t": "dict", "src": r.get("src", ""), "n": r["n"], "cells": cs, "roots": r["roots"],
+                "keys": [e["key"] for e in evs if e.get("k") == "Key"], "modes": [mode]}
+    return {"t": "walk", "src": r.get("src", ""), "cells": cs, "roots": r["roots"],
+            "script": [{"k": e["k"], "c": e["c"], "i": e.get("i", 0)} for e in evs if e.get("k") in ("Cursor", "Ref", "Up", "Prune", "Create")], "modes": [mode]}
 
 
-def finding_key(e, reason, twin):
-    if e.get("k") == "Dict":
-        if reason == "value:pruned" and twin == "twin":
+def finding_key(e, reason, cls):
+    k = e.get("k")
+    if cls == "leak":
+        return "C18:prover-reuse:prunes-leak"                # pruned branches of an earlier request of the same prover reappear
+    if k == "Key":
+        if reason == "value:pruned" and cls == "twin":
             return "C18:shared-sibling-subtree"              # the sibling pruned at a fork is the same cell as the path's child
-        if reason == "value:refs" and twin == "valueref":
+        if reason == "value:refs" and cls == "valueref":
             return "C18:value-ref-equals-pruned-sibling"     # a cell referenced by the value is the same cell as a pruned sibling
-        return "C18:dict:%s:%s" % (reason, twin)
-    if e.get("k") == "Walk":
+        return "C18:dict:%s:%s" % (reason, cls)
+    if k == "Create":
         return "C18:walk:%s" % reason
-    return "C18:event:%s" % e.get("k", "?")
+    return "C18:event:%s" % (k or "?")
 
 
 def judge(ck, traces, stats):
     """validate every trace; returns list of (size, key, what, replay_obj)"""
     def val(tp):
-        return ck.validate_events(*TRACE, tp, timeout=3000, name="trace_" + os.path.basename(tp).split(".")[0][-9:],
-                                  heap_gb=2 if ck.thorough else 1)     # measured: 0.6 GB resident for a 10 MB trace
+        return ck.validate_segments(*TRACE, tp, timeout=3000, name="trace_" + os.path.basename(tp).split(".")[0][-9:],
+                                    heap_gb=2 if ck.thorough else 1, deque=True)   # measured: < 1 GB resident for a 10 MB trace
     found = []
     for tp, (res, rejected) in zip(traces, vlib.parallel(val, traces, n=vlib.NCPU)):
         notes = {}
         for t in res.tuples("NOTE"):
-            if len(t) != 5:
+            if len(t) != 4:
                 raise Infra("unparsable NOTE line from the trace spec: %r" % (t,))
-            notes.setdefault(t[1], []).append((t[2], t[3], t[4]))
+            notes[t[1]] = (t[2], t[3])
         for t in res.tuples("SEM"):
             stats["walk_semantics:" + t[2]] += 1
         for rj in rejected:
-            e = rj["event"]
-            ns = notes.get(rj["line"], [])
-            if not ns:
-                found.append((0, finding_key(e, "no-action", ""), "recorded event has no action in MerkleProof_Trace: %s" % json.dumps(cellcommon.slim(e, 600)),
-                              {"kind": "event", "event": cellcommon.slim(e, 4000)}))
-            for qi, reason, twin in ns:
-                if reason.startswith("domain:"):
-                    raise Infra("harness / specification inconsistency (%s) at %s line %d: %s" % (reason, tp, rj["line"], json.dumps(cellcommon.slim(e, 800))))
-                key = finding_key(e, reason, twin)
-                stats["rejected:" + key] += 1
-                if e["k"] == "Dict":
-                    q = e["q"][qi - 1]
-                    what = ("ProofOK fails at clause '%s' for key %s of a %d-bit dictionary with %d cells (source %s, build '%s'%s): "
-                            "ProveKeyInHashmap returned err=%r proof=%s" % (reason, q["key"], e["n"], len(e["cells"]), e.get("src"), e.get("mode"),
-                                                                           {"twin": ", the key's path passes a fork whose two children are the same cell",
-                                                                            "valueref": ", a cell referenced by the key's value is the same cell as the sibling at a fork of its path"}.get(twin, ""),
-                                                                           q.get("msg", q["err"]), q["proof"][:400]))
-                    found.append((len(e["cells"]), key, what, {"kind": "vector", "vector": vector_of(e, qi - 1)}))
-                else:
-                    what = ("cursor walk judgement fails at clause '%s' (source %s, build '%s', %d cells, ops %s): err=%r proof=%s" % (
-                        reason, e.get("src"), e.get("mode"), len(e["cells"]), json.dumps(e["ops"])[:300], e.get("msg", e["err"]), e["proof"][:400]))
-                    found.append((len(e["cells"]), key, what, {"kind": "vector", "vector": vector_of(e)}))
+            e, seg = rj["event"], rj["segment"]
+            r = seg[0]
+            reason, cls = notes.get(rj["line"], ("no-action", ""))
+            if reason.startswith("domain:"):
+                raise Infra("harness / specification inconsistency (%s) at %s line %d: %s" % (reason, tp, rj["line"], json.dumps(cellcommon.slim(e, 800))))
+            key = finding_key(e, reason, cls)
+            stats["rejected:" + key] += 1
+            nreq = sum(1 for x in seg[1:rj["accepted"] + 1] if x.get("k") in ("Key", "Create"))
+            ctx = "request %d of one prover, %s with %d cells (source %s, build '%s')" % (
+                nreq, "%d-bit dictionary" % r["n"] if r.get("kind") == "dict" else "tree", len(r["cells"]), r.get("src"), r.get("mode"))
+            cl = {"twin": "; the key's path passes a fork whose two children are the same cell",
+                  "valueref": "; a cell referenced by the key's value is the same cell as the sibling at a fork of its path",
+                  "leak": "; every unaccounted pruned branch was pruned by an EARLIER request of the same prover"}.get(cls, "")
+            if e.get("k") == "Key":
+                what = "ProofOK fails at clause '%s' for key %s (%s%s): ProveKeyInHashmap returned err=%r proof=%s" % (
+                    reason, e["key"], ctx, cl, e.get("msg", e["err"]), e["proof"][:400])
+            elif e.get("k") == "Create":
+                what = "CreateProof judgement fails at clause '%s' for session %s (%s%s): err=%r proof=%s" % (
+                    reason, e["c"], ctx, cl, e.get("msg", e["err"]), e["proof"][:400])
+            else:
+                what = "recorded event has no action in MerkleProof_Trace (%s): %s" % (ctx, json.dumps(cellcommon.slim(e, 600)))
+            found.append((len(r["cells"]) * 1000 + rj["accepted"], key, what, {"kind": "vector", "vector": vector_of(seg, rj["accepted"])}))
     return found
 
 
-def flip_stored_hash(hexs):
-    """flip one bit of the hash stored in the Merkle-proof root cell of a bag written by the library (root = cell 0)"""
-    b = bytearray.fromhex(hexs)
-    if bytes(b[:4]) != bytes.fromhex("b5ee9c72"):
-        raise Infra("canary: unexpected bag magic")
-    fl, ob = b[4], b[5]
-    sz = fl & 7
-    ncells = int.from_bytes(b[6:6 + sz], "big")
-    nroots = int.from_bytes(b[6 + sz:6 + 2 * sz], "big")
-    pos = 6 + 3 * sz + ob
-    root = int.from_bytes(b[pos:pos + sz], "big")
-    pos += nroots * sz + (ncells * ob if fl & 0x80 else 0)
-    if root != 0 or not (b[pos] & 8) or b[pos + 2] != 3:
-        raise Infra("canary: the bag's first cell is not the Merkle-proof root")
-    b[pos + 3 + 7] ^= 0x10
-    return b.hex()
+# expected verdicts of the synthetic segments of spec/gen/MerkleProof_Canary.tla: (accepted events, clause, class)
+CANARY_EXPECT = [("W1", None), ("W2", ("pruned-but-not-asked", "leak")), ("W3", ("pruned-but-not-asked", "plain")), ("W4", ("well-formed", "plain")),
+                 ("W5", None), ("W6", ("pruned-but-not-asked", "leak")), ("D1", None), ("D2", ("value:pruned", "leak")), ("D3", ("value:pruned", "plain")),
+                 ("D4", ("absent-key-proved", "plain")), ("D5", ("well-formed", "plain")), ("D6", ("returned-value", "plain"))]
 
 
-def canaries(ck, traces):
-    evs = [e for tp in traces[:3] for e in vlib.read_ndjson(tp) if e.get("k") in ("Dict", "Walk")]
-    def good_dict(e):
-        if e["k"] != "Dict" or e["mode"] != "tree":
-            return False
-        pres = [q for q in e["q"] if q["err"] == "" and q["proof"]]
-        return len({q["key"] for q in pres}) >= 2 and any(q["err"] != "" for q in e["q"])
-    d = next((e for e in evs if good_dict(e)), None)
-    wk = next((e for e in evs if e["k"] == "Walk" and e["mode"] == "tree" and e["proof"] and sum(1 for o in e["ops"] if o["op"] == "prune") == 1), None)
-    if d is None or wk is None:
-        raise Infra("no recorded event suitable for the canaries")
-    pres = [i for i, q in enumerate(d["q"]) if q["err"] == "" and q["proof"]]
-    i1 = pres[0]
-    i2 = next(i for i in pres if d["q"][i]["key"] != d["q"][i1]["key"])
-    ia = next(i for i, q in enumerate(d["q"]) if q["err"] != "")
-    def only(e, idxs):
-        c = copy.deepcopy(e); c["q"] = [c["q"][i] for i in idxs]; c.pop("exp", None); return c
-    c0 = only(d, [i1, i2, ia])
-    c1 = only(d, [i1]); c1["q"][0]["proof"] = flip_stored_hash(c1["q"][0]["proof"])
-    c2 = only(d, [i1]); c2["q"][0]["proof"] = d["q"][i2]["proof"]; c2["q"][0]["val"] = d["q"][i1]["val"]   # the leaf of key 1 is a pruned branch in the proof of key 2
-    c3 = only(d, [ia]); c3["q"][0].update(err="", proof=d["q"][i1]["proof"], val=d["q"][i1]["val"])
-    c4 = copy.deepcopy(wk)
-    c5 = copy.deepcopy(wk); c5["ops"] = [o for o in c5["ops"] if o["op"] != "prune"]
-    c6 = copy.deepcopy(wk); c6["proof"] = flip_stored_hash(c6["proof"])
-    p = os.path.join(ck.work, "canary.ndjson")
-    vlib.write_ndjson(p, [c0, c1, c2, c3, c4, c5, c6, {"k": "End"}])
+def canaries(ck):
+    """Binding self-test on synthetic, hand-checkable segments written by the specification itself (no code under test):
+    right proofs are accepted; a prune leaking into the next request, a dropped Prune, a flipped stored hash, the proof of
+    another key, a proof for an absent key and a wrong returned value are each rejected at the expected event."""
     st = (ck.states, ck.transitions, ck.traces_ok, ck.evaluations)
-    res, rej = ck.validate_events(*TRACE, p, name="canary", heap_gb=1)
+    res = ck.tlc_or_infra("MerkleProof_Canary", "gen/MerkleProof_Canary.cfg", workers=1, timeout=600, name="canary_gen", heap_gb=1)
+    v = res.vecs()
+    if len(v) != 1 or not v[0]["selfcheck"] or len(v[0]["lens"]) != len(CANARY_EXPECT):
+        raise Infra("canary generator failed")
+    p = os.path.join(ck.work, "canary.ndjson")
+    vlib.write_ndjson(p, v[0]["events"] + [{"k": "End"}])
+    res, rej = ck.validate_segments(*TRACE, p, name="canary", heap_gb=1)
     ck.states, ck.transitions, ck.traces_ok, ck.evaluations = st
-    notes = {t[1]: t[3] for t in res.tuples("NOTE")}
-    lines = [r["line"] for r in rej]
-    ck.canary("C->S: unmodified Dict / Walk events accepted; rejected: flipped stored-hash byte in a proof (dict, walk), the proof of another key "
-              "(proven leaf is a pruned branch), a proof claimed for an absent key, a walk with its Prune dropped",
-              lines == [2, 3, 4, 6, 7] and notes.get(2) in ("well-formed", "stored-hash") and notes.get(3) == "value:pruned"
-              and notes.get(4) == "absent-key-proved" and notes.get(6) == "pruned-but-not-asked" and notes.get(7) in ("well-formed", "stored-hash"))
+    notes = {t[1]: (t[2], t[3]) for t in res.tuples("NOTE")}
+    rejected = {r["seg"]: r for r in rej}
+    ok, start = True, 1
+    for (name, want), ln in zip(CANARY_EXPECT, v[0]["lens"]):
+        r = rejected.get(start)
+        if want is None:
+            ok = ok and r is None
+        else:      # rejected exactly at the segment's last event, with the expected clause and class
+            ok = ok and r is not None and r["accepted"] == ln - 1 and notes.get(r["line"]) == want
+        start += ln
+    ck.canary("synthetic segments (spec-written proofs): right sequences accepted; rejected: prune leaking into the next request (walk, dict) or into a concurrent session, "
+              "dropped Prune, flipped stored-hash bit (walk, dict), proof of another key, proof for an absent key, wrong returned value", ok)
 
 
 def generate(ck):
@@ -145,10 +133,13 @@ def generate(ck):
             ("MerkleProof_GenD", "gen/MerkleProof_GenD_quick.cfg" if q else "gen/MerkleProof_GenD_full.cfg", "gen_dict")]
     rs = vlib.parallel(lambda j: ck.tlc_or_infra(j[0], j[1], workers=4, timeout=1500, name=j[2], heap_gb=2), jobs, n=3)
     walks, free, dicts = rs[0].vecs(), rs[1].vecs(), rs[2].vecs()
-    if len(walks) < 1000 or len(free) < 100 or len(dicts) < 1000:
+    if len(walks) < 5000 or len(free) < 500 or len(dicts) < 1000:
         raise Infra("generators produced too few vectors (%d, %d, %d)" % (len(walks), len(free), len(dicts)))
-    if not all(v["wf"] for v in walks + free) or not all(v["selfcheck"] for v in dicts):
-        raise Infra("generator self-check failed (Proof() not well-formed, or the reference dictionary fails its own decoder)")
+    if not all(v["selfcheck"] for v in dicts):
+        raise Infra("generator self-check failed (the reference dictionary fails its own decoder)")
+    for v in dicts:          # the same prover is asked once more for its first key, after all the others
+        if len(v["keys"]) > 1:
+            v["keys"].append(v["keys"][0]); v["exp"].append(v["exp"][0])
     for v in free:
         v["src"] = "gen:free"
     for v in walks:
@@ -160,14 +151,27 @@ def generate(ck):
     if not twin:
         raise Infra("no generated dictionary has a fork with two equal children (vacuous)")
     ck.extra["generated"] = {"walk_dfs": len(walks), "walk_free": len(free), "dict": len(dicts), "dict_with_equal_siblings": len(twin)}
+    def later_request_after_prune(v):      # a session that starts after an earlier session pruned something
+        seen = False
+        for st in v["script"]:
+            if st["k"] == "Prune":
+                seen = True
+            elif st["k"] == "Cursor" and seen:
+                return True
+        return False
+    seq = [v for v in walks if later_request_after_prune(v)]
+    other = [v for v in walks if not later_request_after_prune(v)]
+    ck.extra["generated"]["walk_dfs_with_session_after_prune"] = len(seq)
+    for l in (seq, other, free, twin, plain):
+        ck.rng.shuffle(l)
     if q:
-        for l in (walks, free, twin, plain):
-            ck.rng.shuffle(l)
-        walks, free, twin, plain = walks[:320], free[:100], twin[:100], plain[:170]
-    vecs = walks + free + twin + plain
+        seq, other, free, twin, plain = seq[:220], other[:100], free[:100], twin[:100], plain[:170]
+    else:
+        seq, other, free = seq[:7000], other[:3000], free[:4000]
+    vecs = seq + other + free + twin + plain
     for i, v in enumerate(vecs):
         v["vec"] = i
-        for f in ("wf", "selfcheck", "expcells", "ps", "twin", "forms", "vmode"):
+        for f in ("selfcheck", "reqs", "twin", "forms", "vmode"):
             v.pop(f, None)
     return vecs
 
@@ -182,7 +186,7 @@ def run(ck):
     gen_res, dtraces = vlib.parallel(lambda f: f(), [lambda: generate(ck), lambda: cellcommon.drive_shards(ck, "C18", shards=shards)], n=2)
     vecs = gen_res
     ck.sample({"direction": "S->C", "vector": next(v for v in vecs if v["t"] == "dict")})
-    ck.sample({"direction": "S->C", "vector": next(v for v in vecs if v["t"] == "walk" and len(v["ops"]) >= 4)})
+    ck.sample({"direction": "S->C", "vector": next(v for v in vecs if v["t"] == "walk" and len(v["script"]) >= 8)})
     def replay(i):
         vp, tp = os.path.join(ck.work, "vec_%02d.ndjson" % i), os.path.join(ck.work, "rtrace_%02d.ndjson" % i)
         vlib.write_ndjson(vp, vecs[i::shards])
@@ -193,24 +197,31 @@ def run(ck):
     stats = Counter()
     proofs = set()
     for tp in rtraces + dtraces:
+        mode, nreq, seg = "", 0, 0
         for e in vlib.read_ndjson(tp):
-            if e.get("k") == "Dict":
-                stats["dict_events:" + e["mode"]] += 1
-                for q in e["q"]:
-                    if q["proof"]:
-                        stats["dict_proofs"] += 1; proofs.add(q["proof"])
-                    elif q["err"]:
-                        stats["dict_refusals"] += 1; proofs.add((e["vec"], e["src"], e["mode"], q["key"]))
-            elif e.get("k") == "Walk":
-                stats["walk_events:" + e["mode"]] += 1
+            k = e.get("k")
+            if k == "Reset":
+                mode, nreq, seg = e["mode"], 0, seg + 1
+                stats["%s_provers:%s" % (e["kind"], mode)] += 1
+            elif k == "Key":
+                nreq += 1
+                if e["proof"]:
+                    stats["dict_proofs"] += 1; proofs.add(e["proof"])
+                    stats["dict_proofs_after_first_request"] += nreq > 1
+                elif e["err"]:
+                    stats["dict_refusals"] += 1; proofs.add((tp, seg, e["key"]))
+            elif k == "Create":
+                nreq += 1
                 if e["proof"]:
                     stats["walk_proofs"] += 1; proofs.add(e["proof"])
-    if stats["dict_proofs"] < 1500 or stats["dict_refusals"] < 800 or stats["walk_proofs"] < 1500:
+                    stats["walk_proofs_after_first_request"] += nreq > 1
+    if (stats["dict_proofs"] < 1500 or stats["dict_refusals"] < 800 or stats["walk_proofs"] < 1500
+            or stats["dict_proofs_after_first_request"] < 1000 or stats["walk_proofs_after_first_request"] < 800):
         raise Infra("too few proofs recorded (vacuous): %s" % dict(stats))
     for m in ("tree", "dag", "boc", "lib"):
-        if not stats["dict_events:" + m]:
+        if not stats["dict_provers:" + m]:
             raise Infra("no dictionary was proven in build mode %s" % m)
-    canaries(ck, rtraces)
+    canaries(ck)
     # one trace file (one TLC process) per shard: replayed vectors followed by the random driver's events
     traces = []
     for i, (a, b) in enumerate(zip(rtraces, dtraces)):
@@ -219,9 +230,9 @@ def run(ck):
         vlib.write_ndjson(tp, evs + [{"k": "End", "events": len(evs)}])
         traces.append(tp)
     found = judge(ck, traces, stats)
-    ev0 = next(e for e in vlib.read_ndjson(dtraces[0]) if e.get("k") == "Dict")
-    ev0 = dict(ev0, q=ev0["q"][:1] + ev0["q"][-1:])
-    ck.sample({"direction": "C->S", "event": cellcommon.slim(ev0, 1400)})
+    evs = vlib.read_ndjson(dtraces[0])
+    i0 = next(i for i, e in enumerate(evs) if e.get("k") == "Reset" and e["kind"] == "dict")
+    ck.sample({"direction": "C->S", "events": [cellcommon.slim(e, 700) for e in evs[i0:i0 + 3]]})
     # smallest failing input first: it becomes the replay file of its key
     for size, key, what, rp in sorted(found, key=lambda f: (f[0], json.dumps(f[3], sort_keys=True))):
         ck.report(key, what, rp)
@@ -239,15 +250,18 @@ def replay(ck, path):
     vp, tp = os.path.join(ck.work, "v.ndjson"), os.path.join(ck.work, "t.ndjson")
     vlib.write_ndjson(vp, [rp["vector"]])
     ck.run_vh(["replay", "C18", "-in", vp, "-out", tp])
-    res, rej = ck.validate_events(*TRACE, tp, name="replay", heap_gb=1)
+    res, rej = ck.validate_segments(*TRACE, tp, name="replay", heap_gb=1)
     for e in vlib.read_ndjson(tp):
-        if e.get("k") == "Dict":
-            for q in e["q"]:
-                print("key %s (n=%d, build %s): err=%r proof=%s" % (q["key"], e["n"], e["mode"], q.get("msg", q["err"]), q["proof"]))
-        elif e.get("k") == "Walk":
-            print("walk %s (build %s): err=%r proof=%s" % (json.dumps(e["ops"]), e["mode"], e.get("msg", e["err"]), e["proof"]))
+        if e.get("k") == "Reset":
+            print("prover over a %s with %d cells (build %s)" % (e["kind"], len(e["cells"]), e["mode"]))
+        elif e.get("k") == "Key":
+            print("  key %s: err=%r proof=%s" % (e["key"], e.get("msg", e["err"]), e["proof"]))
+        elif e.get("k") == "Create":
+            print("  CreateProof(session %s): err=%r proof=%s" % (e["c"], e.get("msg", e["err"]), e["proof"]))
+        elif e.get("k") in ("Cursor", "Ref", "Up", "Prune"):
+            print("  %s session %s %s" % (e["k"], e["c"], e.get("i", "")))
     for t in res.tuples("NOTE"):
-        print("rejected: line %s query %s clause %s (%s)" % tuple(t[1:5]))
+        print("rejected: line %s clause %s (%s)" % tuple(t[1:4]))
     if rej:
         print("VIOLATION property=C18 replay=%s" % path)
         return 1
